@@ -16,6 +16,7 @@ import time
 
 from vlib import coq_list, coq_str, canon_hash
 import exprlib as X
+from props import C03if
 
 KIND = {"h1": "KH1", "hcurl": "KHcurl", "hdiv": "KHdiv", "l2": "KL2", "undef": "KUndef"}
 
@@ -26,7 +27,7 @@ Set Printing Width 1000000. Set Printing Depth 1000000.
 (* 0 = the model's output is proved equal to the implementation's; 1 = not proved; 2 = the model refuses;
    3 = the analytical mapping could not be substituted *)
 Definition chk (d : nat) (ex : list texpr) (hs : list (texpr * texpr)) (e : lx) (out : tensor) : nat :=
-  match logical d "M" e with
+  match logical d "M" SNone e with
   | None => 2
   | Some t =>
       match (match ex with [] => Some t | _ => msubst_tens "M" ex t end) with
@@ -34,7 +35,7 @@ Definition chk (d : nat) (ex : list texpr) (hs : list (texpr * texpr)) (e : lx) 
       | Some t' => if tens_equiv_hyps hs t' out then 0 else 1
       end
   end.
-Definition refuses (d : nat) (e : lx) : nat := match logical d "M" e with None => 0 | Some _ => 1 end.
+Definition refuses (d : nat) (e : lx) : nat := match logical d "M" SNone e with None => 0 | Some _ => 1 end.
 """
 
 # ------------------------------------------------------------------------------------------ tree helpers
@@ -58,8 +59,10 @@ def children(j):
         return list(j["a"])
     if k == "pow":
         return [j["b"], j["e"]]
-    if k in ("fn", "d"):
+    if k in ("fn", "d", "trace"):
         return [j["a"]]
+    if k == "tuple":
+        return list(j["a"])
     if k == "mat":
         return [a for r in j["rows"] for a in r]
     return []
@@ -134,6 +137,10 @@ def coq_lx(j, spaces):
         return "(LD %d %s)" % (j["i"], coq_lx(j["a"], spaces))
     if k == "mat":
         return "(LMat %s)" % coq_list([coq_list([coq_lx(a, spaces) for a in r]) for r in j["rows"]])
+    if k == "tuple":
+        return "(LMat %s)" % coq_list([coq_list([coq_lx(a, spaces)]) for a in j["a"]])
+    if k == "trace":
+        return "(LOther %s %s)" % (coq_str("trace"), coq_list([coq_lx(j["a"], spaces)]))     # not modelled
     if k == "op":
         n, a = j["name"], [coq_lx(x, spaces) for x in j["a"]]
         un = {"grad": "LGrad", "curl": "LCurl", "div": "LDiv", "laplace": "LLaplace"}
@@ -487,6 +494,10 @@ def gen_transpose_case(rng, tier):
 
 
 def est_cost(c):
+    if c.get("iface") is not None:
+        return C03if.est_cost(c)
+    if c.get("dc") is not None:
+        return {1: 0.3, 2: 0.8, 3: 8.0}[c["dim"]] * (3.0 if c["dc"]["mapping"].get("type") == "catalogue" else 1.0)
     base = {1: 0.3, 2: 1.5, 3: 22.0}[c["dim"]]
     m = c["mapping"]
     f = 1.0
@@ -509,11 +520,11 @@ def replace_at(j, path, new):
 
 def node_child(n, step):
     k = n["k"]
-    if k in ("add", "mul", "op"):
+    if k in ("add", "mul", "op", "tuple"):
         return n["a"][step]
     if k == "pow":
         return n["b"] if step == 0 else n["e"]
-    if k in ("fn", "d"):
+    if k in ("fn", "d", "trace"):
         return n["a"]
     if k == "mat":
         w = len(n["rows"][0])
@@ -522,11 +533,11 @@ def node_child(n, step):
 
 def set_child(n, step, new):
     k = n["k"]
-    if k in ("add", "mul", "op"):
+    if k in ("add", "mul", "op", "tuple"):
         n["a"][step] = new
     elif k == "pow":
         n["b" if step == 0 else "e"] = new
-    elif k in ("fn", "d"):
+    elif k in ("fn", "d", "trace"):
         n["a"] = new
     elif k == "mat":
         w = len(n["rows"][0])
@@ -603,12 +614,62 @@ def corpus_cases():
     add(2, F1, OP("transpose", OP("grad", VF("F"))))
     add(2, FG, OP("inner", ADD(OP("grad", VF("F")), OP("transpose", OP("grad", VF("F")))), OP("grad", VF("G"))))
     add(2, F1, OP("transpose", OP("grad", VF("F"))), mapping={"type": "user", "exprs": ["2*x1 + x2/3 + x1*x2/5", "3*x2 - x1*x1/4"]})
+    # arms that no random case reached (arm coverage): the Tuple arm, the Trace arm (oracle-only), the function-free
+    # DiffOperator arm, the NotImplementedError exits of curl / the remaining differential operators
+    add(2, h1, {"k": "tuple", "a": [DD(0, SF("u")), MUL(XC(0), SF("v"))]})
+    add(2, h1, {"k": "tuple", "a": [DD(1, SF("u")), DD(0, DD(0, SF("v")))]}, mapping={"type": "catalogue", "cls": "PolarMapping", "params": {}})
+    add(2, h1, OP("grad", MUL(XC(0), FN("sin", XC(1)))))
+    add(2, h1, OP("laplace", MUL(XC(0), XC(0), XC(1))))
+    hc = {"u": {"kind": "h1", "vector": False}, "E": {"kind": "hcurl", "vector": True}}
+    add(2, hc, OP("curl", MUL(SF("u"), VF("E"))), must=False)
+    add(2, h1, OP("rot", SF("u")), must=False)
+    for order_, ax_, ex_ in ((1, 0, 1), (0, 1, -1), (1, 1, -1)):
+        cs.append({"dim": 2, "mapping": {"type": "symbolic"}, "family": "symbolic", "spaces": h1, "ncube": True,
+                   "tree": {"k": "trace", "order": order_, "axis": ax_, "ext": ex_, "a": OP("grad", SF("u")) if order_ == 1 else MUL(SF("u"), SF("v"))},
+                   "order": "LT", "shape": "corpus", "seed": 7 + len(cs), "origin": "corpus", "must_value": True})
+    cs.append({"dim": 3, "mapping": {"type": "symbolic"}, "family": "symbolic", "spaces": h1, "ncube": True,
+               "tree": {"k": "trace", "order": 1, "axis": 2, "ext": 1, "a": OP("grad", SF("u"))},
+               "order": "LT", "shape": "corpus", "seed": 7 + len(cs), "origin": "corpus", "must_value": True})
     return cs
+
+
+# Findings of the interface family proposed for /verif/known_findings.json (see the builder's report; repaired by the patch
+# proposal fix-logicalexpr-restrictions except the last one).  Matched here until they are listed / repaired, so that the
+# unchanged tree raises no alarm; an entry with the same id in known_findings.json wins.
+PROPOSED_KNOWN = [
+    {"property": "C03", "status": "known", "id": "C03-interface-component-of-restricted-vector",
+     "what": "interface of a mapped multi-patch domain: a component minus(F)[i] = minus(F[i]) of a restricted vector function "
+             "raises TypeError in LogicalExpr (PullBack of an IndexedVectorFunction)",
+     "match": {"family": "interface", "feature": "component-of-restricted-vector", "kind": "if-raised"}},
+    {"property": "C03", "status": "known", "id": "C03-interface-laplace-of-restricted",
+     "what": "interface of a mapped multi-patch domain: laplace(minus(u)) / laplace(plus(u)) pulls the OUTER gradient back with "
+             "the Jacobian of the InterfaceMapping itself (Jacobian(M1|M2)), which cannot be lowered (AssertionError)",
+     "match": {"family": "interface", "feature": "laplace-of-restricted", "kind": "if-raised"}},
+    {"property": "C03", "status": "known", "id": "C03-interface-div-loses-restriction",
+     "what": "interface of a mapped multi-patch domain: div(minus(F)) / div(plus(F)) of a vector function that is not H(div) is "
+             "transformed to tr(J^-T grad(F^)) with the logical function WITHOUT its restriction (the H(div) arm keeps it)",
+     "match": {"family": "interface", "feature": "div-of-restricted-non-hdiv", "kind": "if-restriction-lost"}},
+    {"property": "C03", "status": "known", "id": "C03-interface-plus-derivative-at-minus-point",
+     "what": "interface of a mapped multi-patch domain, plus side: dx/dy/dz of a plus-restricted function are pulled back through "
+             "Covariant(mapping.plus, ..) with the explicit inverse Jacobian: for an analytical non-affine mapping it is written in "
+             "x1, x2, x3 (the MINUS patch's logical point in an interface kernel; grad(plus(u)) uses x1_plus.. and the frozen face "
+             "coordinate), and when ONE symbolic Mapping object maps both patches its components are not marked as those of the "
+             "plus copy (the grad arm marks them)",
+     "match": {"family": "interface", "feature": "dxi-of-plus-restricted", "kind": "if-wrong-value"}},
+    {"property": "C03", "status": "known", "id": "C03-interface-shared-mapping-plus-jacobian-unmarked",
+     "what": "interface of a mapped multi-patch domain whose two patches are mapped by ONE symbolic Mapping object: the Jacobian "
+             "(determinant) of the plus side - L2 and H(div) pull-backs, the Piola factors of curl / div - is lowered by TerminalExpr "
+             "with the components of the ORIGINAL mapping, the same atoms as the minus side (the JacobianInverseSymbol arm replaces "
+             "them by those of the plus copy, the JacobianSymbol arm does not)",
+     "match": {"family": "interface", "feature": "plus-jacobian-of-shared-mapping", "kind": "if-wrong-value",
+               "plus_mapping": "same-symbolic"}},
+]
 
 
 def main(run, replay=None):
     rng = run.rng
     quick = run.tier == "quick"
+    run.known += [k for k in PROPOSED_KNOWN if k["id"] not in {x["id"] for x in run.known}]
     t0 = time.time()
     try:
         import translate.pullback as TP
@@ -650,6 +711,23 @@ def main(run, replay=None):
         trng = _random.Random(run.seed * 104729 + 3)
         for _ in range(14 if quick else 120):
             cases.append(gen_transpose_case(trng, run.tier))
+        # expressions of RESTRICTED functions on an interface of a mapped two-patch domain (different mappings per patch,
+        # matched parametrisations; runner + oracle tools/impl/C03if_impl.py, model Model/LogicalIfM.v) and direct calls of
+        # Jacobian / Covariant / Contravariant (tools/impl/C03dc_impl.py): random streams of their own
+        irng = _random.Random(run.seed * 15485863 + 7)
+        ispent, ibudget = 0.0, (170.0 if quick else 2600.0)
+        for dim, n in ({2: 30, 1: 4, 3: 1} if quick else {2: 320, 1: 30, 3: 26}).items():
+            for _ in range(n):
+                c = C03if.gen_if_case(irng, run.tier, dim)
+                if ispent + est_cost(c) > ibudget:
+                    continue
+                ispent += est_cost(c)
+                cases.append(c)
+        cases += C03if.corpus_cases()
+        cases += C03if.dc_corpus()
+        drng = _random.Random(run.seed * 32452843 + 5)
+        for _ in range(16 if quick else 300):
+            cases.append(C03if.gen_dc_case(drng, run.tier, gen_mapping))
 
     # ---- run the implementation (batches balanced by estimated cost)
     nb = 16
@@ -675,8 +753,30 @@ def main(run, replay=None):
 
     # ---- Coq: the model vs the implementation
     terms, owners = [], []
+    hdr_of = {}
     for ci, (c, r) in enumerate(zip(cases, results)):
-        if r is None or "crash" in r or r.get("in") is None:
+        if r is None or "crash" in r:
+            continue
+        if c.get("dc") is not None:
+            if isinstance(r.get("out"), dict) and "rows" in r["out"] and c.get("wellformed") in ("well-formed", "length-mismatch"):
+                t = C03if.dc_term(c, r, relations, out_sxs)
+                if t is not None:
+                    hdr_of[len(terms)] = C03if.HEADER + C03if.DC_HEADER
+                    terms.append(t)
+                    owners.append((ci, "value"))
+            continue
+        if r.get("in") is None:
+            continue
+        if c.get("iface") is not None:
+            try:
+                t, what = C03if.coq_term(c, r, coq_lx, coq_tens, relations, out_sxs)
+            except Exception:  # noqa
+                t = None
+            if t is not None and (what == "value" or r["out"].get("err") in ("not-implemented", "unsupported-node") or
+                                  "0" in C03if.sides_of(c["tree"])):
+                hdr_of[len(terms)] = C03if.HEADER
+                terms.append(t)
+                owners.append((ci, what))
             continue
         out = r["out"]
         try:
@@ -701,7 +801,7 @@ def main(run, replay=None):
     per = 1
     for k in range(0, len(terms), per):
         name = "cases_C03_%d" % (k // per)
-        files[name] = HEADER + "".join("Eval vm_compute in [%s].\n" % t for t in terms[k:k + per])
+        files[name] = hdr_of.get(k, HEADER) + "".join("Eval vm_compute in [%s].\n" % t for t in terms[k:k + per])
         index.append((name, owners[k:k + per]))
     coq_out = run.coq_eval_many(files, timeout=25 if quick else 120)
     code = {}
@@ -717,6 +817,15 @@ def main(run, replay=None):
     t_coq = time.time() - t0 - t_build - t_impl
 
     # ---- decide
+    istats = {"cases": 0, "oracle_ok": 0, "model_agrees": 0, "model_unproved": 0, "model_none": 0, "side_condition_fails": 0,
+              "coq_undecided": 0, "oracle_only_interface": 0, "refused_not_implemented": 0, "raised": 0, "restriction_lost": 0,
+              "wrong_value": 0, "oracle_unavailable": 0, "unsupported": 0, "timeout": 0}
+    dstats = {"cases": 0, "wellformed_value_oracle_ok": 0, "model_agrees": 0, "model_unproved": 0, "malformed_refused": 0,
+              "length_mismatch_value": 0, "length_mismatch_refused": 0, "oracle_unavailable": 0, "coq_undecided": 0}
+    ihist = {"template": {}, "pairing": {}, "feature": {}, "error": {}, "dc_call": {}, "dc_container": {}, "dc_kind": {}, "dc_refusal": {}}
+
+    def ibump(h, k):
+        ihist[h][k] = ihist[h].get(k, 0) + 1
     stats = {"model_agrees": 0, "model_unproved": 0, "model_none": 0, "oracle_only_transpose": 0, "subst_failed": 0, "coq_undecided": 0,
              "refused_both": 0, "impl_refused_model_value": 0, "constructor_refused": 0, "impl_raised": 0,
              "timeout": 0, "oracle_checked": 0, "oracle_unavailable": 0, "non_terminal": 0, "unsupported_input": 0}
@@ -727,6 +836,119 @@ def main(run, replay=None):
             continue
         if "crash" in r:
             failing.append((ci, "crash", "the runner crashed on this input: " + r["crash"][-300:]))
+            continue
+        if c.get("iface") is not None:
+            istats["cases"] += 1
+            ibump("template", c.get("template", "corpus")); ibump("pairing", c.get("pairing", "corpus")); ibump("feature", C03if.feature(c))
+            out = r["out"]
+            what, v = code.get(ci, ("value", 9))
+
+            def ifail(kind, msg, extra=None):
+                failing.append((ci, "sig:" + json.dumps(C03if.signature(c, kind, extra), sort_keys=True), msg))
+            if "err" in out:
+                e = out["err"]
+                ibump("error", e)
+                if e.startswith("constructor:") or e == "unsupported-input":
+                    stats["constructor_refused" if e.startswith("constructor:") else "unsupported_input"] += 1
+                elif e == "not-implemented":
+                    istats["refused_not_implemented"] += 1
+                elif "0" in C03if.sides_of(c["tree"]) and e in ("other:TypeError", "assertion"):
+                    # a function without restriction under an operator: refused by the code; the model must refuse too
+                    istats["refused_unrestricted"] = istats.get("refused_unrestricted", 0) + 1
+                    if what == "refused" and v == 0:
+                        istats["refused_unrestricted_model_agrees"] = istats.get("refused_unrestricted_model_agrees", 0) + 1
+                    elif what == "refused" and v == 1:
+                        failing.append((ci, "if-model-accepts-unrestricted", "the code refuses a function without restriction under "
+                                        "a differential operator on an interface (%s) but the model returns a value" % e))
+                elif e == "timeout":
+                    istats["timeout"] += 1
+                elif e == "unsupported-node":
+                    istats["unsupported"] += 1
+                    if "Derivative" in out.get("msg", ""):
+                        ifail("if-non-terminal", "the transformed expression contains an unevaluated Derivative: " + out.get("text", "")[:200])
+                else:
+                    istats["raised"] += 1
+                    ifail("if-raised", "TerminalExpr(LogicalExpr(e, I), I.logical_domain) raises %s on an expression of restricted "
+                          "functions: %s (%s)" % (e, out.get("msg", "")[:120], " < ".join(out.get("where", []))), {"exc": e})
+                continue
+            orc = r.get("oracle", {})
+            if "0" in C03if.sides_of(c["tree"]):
+                istats["unrestricted_value"] = istats.get("unrestricted_value", 0) + 1       # no reference: not decided
+                continue
+            if orc.get("ok") is False:
+                istats["wrong_value"] += 1
+                ifail("if-wrong-value", "the logical expression, evaluated at the two logical points (x^-, x^+) of one physical "
+                      "point of the interface, does not have the value of the original expression there: %s" % json.dumps(orc.get("info"))[:400])
+                continue
+            if orc.get("ok") is None:
+                if "without restriction in the output" in str(orc.get("info")):
+                    istats["restriction_lost"] += 1
+                    ifail("if-restriction-lost", "a restricted function appears WITHOUT its restriction in the transformed expression")
+                else:
+                    istats["oracle_unavailable"] += 1
+                continue
+            istats["oracle_ok"] += 1
+            if v == 0:
+                istats["model_agrees"] += 1
+                stats["model_agrees"] += 1
+            else:
+                istats["oracle_only_interface"] += 1
+                istats[{1: "model_unproved", 2: "model_none", 4: "side_condition_fails"}.get(v, "coq_undecided")] += 1
+            continue
+        if c.get("dc") is not None:
+            dstats["cases"] += 1
+            dc, out, wf = c["dc"], r["out"], c.get("wellformed")
+            ibump("dc_call", dc["call"]); ibump("dc_container", dc["container"]); ibump("dc_kind", wf)
+            what, v = code.get(ci, ("value", 9))
+            sigd = {"family": "direct-call", "call": dc["call"], "wellformed": wf}
+            if "err" in out:
+                ibump("dc_refusal", "%s:%s:%s" % (dc["call"], wf, out["err"]))
+                if wf == "well-formed" and out["err"] != "timeout":
+                    failing.append((ci, "sig:" + json.dumps(dict(sigd, kind="dc-refused-wellformed", exc=out["err"]), sort_keys=True),
+                                    "%s refuses a well-formed call: %s %s" % (dc["call"], out["err"], out.get("msg", "")[:100])))
+                elif wf == "length-mismatch":
+                    dstats["length_mismatch_refused"] += 1
+                else:
+                    dstats["malformed_refused"] += 1
+                    # the refusals that the helpers document (raise TypeError for a non-Mapping / a non-sequence) and those
+                    # of PullBack.__new__; the other malformed calls may be refused in any way
+                    want = None
+                    if wf == "malformed:mapping" and dc["call"] in ("Jacobian", "Contravariant"):
+                        want = "TypeError"
+                    elif wf == "malformed:container":
+                        want = "TypeError"
+                    elif wf == "malformed:unmapped":
+                        want = "ValueError"
+                    elif wf == "malformed:nonfunction":
+                        want = "TypeError"
+                    if want is not None and out["err"] != want:
+                        failing.append((ci, "sig:" + json.dumps(dict(sigd, kind="dc-wrong-refusal", exc=out["err"], want=want), sort_keys=True),
+                                        "%s refuses a malformed call (%s) with %s instead of the documented %s" % (dc["call"], wf, out["err"], want)))
+                continue
+            if wf.startswith("malformed"):
+                failing.append((ci, "sig:" + json.dumps(dict(sigd, kind="dc-accepted-malformed"), sort_keys=True),
+                                "%s accepts a malformed call (%s) and returns a value" % (dc["call"], wf)))
+                continue
+            if wf == "length-mismatch":
+                dstats["length_mismatch_value"] += 1
+                continue
+            orc = r.get("oracle", {})
+            if orc.get("ok") is False:
+                failing.append((ci, "sig:" + json.dumps(dict(sigd, kind="dc-wrong-value"), sort_keys=True),
+                                "%s does not return %s: %s" % (dc["call"], {"Jacobian": "(d M_i/d x_j)", "Covariant": "J^-T v",
+                                                                             "Contravariant": "(J/det J) v"}[dc["call"]], json.dumps(orc.get("info"))[:300])))
+                continue
+            if orc.get("ok") is None:
+                dstats["oracle_unavailable"] += 1
+                continue
+            dstats["wellformed_value_oracle_ok"] += 1
+            if v == 0:
+                dstats["model_agrees"] += 1
+                stats["model_agrees"] += 1
+            elif v in (1, 2, 3):
+                dstats["model_unproved"] += 1
+            else:
+                dstats["coq_undecided"] += 1
             continue
         out = r["out"]
         if "err" in out:
@@ -755,7 +977,7 @@ def main(run, replay=None):
                 if c.get("must_value"):
                     failing.append((ci, "raised", "LogicalExpr/TerminalExpr raised %s on a core expression: %s"
                                     % (e, out.get("msg", "")[:160])))
-            if c.get("must_value") and e in ("not-implemented", "unsupported-node", "timeout") or \
+            if c.get("must_value") and e in ("not-implemented", "unsupported-node") or \
                     (c.get("must_value") and e.startswith("constructor:")):
                 failing.append((ci, "raised", "no value for a core expression: %s %s" % (e, out.get("msg", "")[:160])))
             continue
@@ -771,6 +993,8 @@ def main(run, replay=None):
         what, v = code.get(ci, ("value", 9))
         if has_op(c["tree"], "transpose") and orc.get("ok") is True and v != 0:
             stats["oracle_only_transpose"] += 1      # no Transpose arm in the model: decided by the oracle alone
+        if c["tree"].get("k") == "trace" and orc.get("ok") is True and v != 0:
+            stats["oracle_only_trace"] = stats.get("oracle_only_trace", 0) + 1     # no Trace arm in the model
         if v == 0:
             stats["model_agrees"] += 1
         elif v == 1:
@@ -806,9 +1030,62 @@ def main(run, replay=None):
                   open(os.environ["C03_DEBUG"], "w"))
         for x, r in zip(json.load(open(os.environ["C03_DEBUG"])), results):
             pass
+    def run_one(c2):
+        r2, _ = run.impl("C03_impl", {"cases": [c2], "case_timeout": 200}, timeout=400)
+        return r2["results"][0] if r2 else None
+
+    def if_same_failure(c2, sig):
+        r2 = run_one(c2)
+        if not r2 or "crash" in r2:
+            return None
+        out2 = r2["out"]
+        k = sig["kind"]
+        if k == "if-raised":
+            return r2 if out2.get("err") == sig.get("exc") else None
+        if "err" in out2:
+            return None
+        o2 = r2.get("oracle", {})
+        if k == "if-wrong-value":
+            return r2 if o2.get("ok") is False and (o2.get("info") or {}).get("why") == "value" else None
+        if k == "if-restriction-lost":
+            return r2 if o2.get("ok") is None and "without restriction in the output" in str(o2.get("info")) else None
+        return None
+
     reported = set()
     for ci, kind, msg in failing:
         c = cases[ci]
+        if kind.startswith("sig:"):
+            sig = json.loads(kind[4:])
+            fam = json.dumps({k: v for k, v in sig.items() if k in ("kind", "feature", "family", "call", "wellformed", "exc")}, sort_keys=True)
+            if fam in reported:
+                continue
+            reported.add(fam)
+            best, obs = copy.deepcopy(c), results[ci]
+            if sig.get("family") == "interface" and not replay and run.match_known(sig) is None:
+                budget_s, improved = 10, True
+                while improved and budget_s > 0:
+                    improved = False
+                    for c2 in C03if.simpler(best):
+                        budget_s -= 1
+                        if budget_s < 0:
+                            break
+                        r2 = if_same_failure(c2, sig)
+                        if r2 is not None:
+                            best, obs, improved = c2, r2, True
+                            break
+                sig = C03if.signature(best, sig["kind"], {k: v for k, v in sig.items() if k == "exc"})
+            small = {k: obs.get(k) for k in ("in", "out", "oracle", "mapexprs") if obs and k in obs}
+            small = {k: (v if len(json.dumps(v)) < 4000 else "(%d characters)" % len(json.dumps(v))) for k, v in small.items()}
+            run.report(sig, "C03 fails on the implementation: " + msg, best, observed=small,
+                       required="interface: a terminal logical expression whose value at the two logical points of one physical point "
+                                "of the interface, every RESTRICTED function being replaced by the pull-back of that side (with the "
+                                "mapping of that side's patch), equals the value of the original expression; direct calls: "
+                                "Jacobian(M) = (d M_i/d x_j), Covariant(M, v) = J^-T v, Contravariant(M, v) = (J/det J) v, refusal of "
+                                "malformed calls",
+                       python="PYTHONPATH=/repo:/verif/tools/impl /venv/bin/python /verif/tools/impl/C03_impl.py in.json out.json"
+                              "  # in.json = {'cases':[case]}",
+                       theorem_or_case="oracle:%s" % sig["kind"])
+            continue
         if kind in reported:
             continue
         reported.add(kind)
@@ -862,6 +1139,20 @@ def main(run, replay=None):
     for c, r in zip(cases, results):
         if r is None or "crash" in r:
             continue
+        if c.get("dc") is not None:
+            bump("shape", "direct-call")
+            if "err" not in r["out"]:
+                distinct.add(canon_hash([c["dc"], c["dim"]]))
+            continue
+        if c.get("iface") is not None:
+            bump("dimension", str(c["dim"])); bump("mapping_family", c.get("family", "?")); bump("shape", "interface")
+            for f, s_ in c["spaces"].items():
+                bump("kinds", ("vector:" if s_["vector"] else "scalar:") + s_["kind"])
+            for k, v in C03if.ops_hist(c["tree"], {}).items():
+                hist["operators"]["if:" + k] = hist["operators"].get("if:" + k, 0) + v
+            if "err" not in r["out"]:
+                distinct.add(canon_hash([r.get("in"), c["dim"], c["iface"], sorted((f, s_["kind"]) for f, s_ in c["spaces"].items())]))
+            continue
         bump("dimension", str(c["dim"]))
         bump("mapping_family", c.get("family", "?"))
         bump("order", c["order"])
@@ -884,7 +1175,10 @@ def main(run, replay=None):
                 "non-trivial = a value was returned and the expression contains at least one derivative or differential "
                 "operator; distinct = canonical JSON of (constructed expression, dimension, mapping, order, kinds)",
         "traces_validated_against_impl": stats["model_agrees"],
-        "decisions": stats, "error_kinds": err_hist, "cases_files_incomplete": cases_file_problems,
+        "decisions": dict(stats, oracle_only_interface=istats["oracle_only_interface"]),
+        "interface_family": {"decisions": istats, "histograms": {k: ihist[k] for k in ("template", "pairing", "feature", "error")}},
+        "direct_calls": {"decisions": dstats, "histograms": {k: ihist[k] for k in ("dc_call", "dc_container", "dc_kind", "dc_refusal")}},
+        "error_kinds": err_hist, "cases_files_incomplete": cases_file_problems,
         "histograms": hist,
         "translator": tinfo,
         "timing_s": {"translate_build_prove": round(t_build, 1), "implementation": round(t_impl, 1), "coq_cases": round(t_coq, 1)},
@@ -903,7 +1197,16 @@ def main(run, replay=None):
         "proved equal to the implementation's output per case by the verified checker.",
         "Section hypotheses of Proofs/LogicalP.v (not axioms): chain rule D^_j u = sum_i (D_i u) J_ij, det J <> 0, physical "
         "coordinates = mapping components, and the pull-back relation between a physical function and its logical unknown.",
-        "Interface (minus/plus) mappings, integrals / forms (C04, C11) and Trace are not modelled here.",
+        "Interface (minus/plus) mappings: expressions of RESTRICTED functions on an interface of a two-patch domain with "
+        "different mappings per patch are modelled (Model/LogicalIfM.v: each one-sided sub-expression through Model/LogicalM.v with "
+        "the mapping of its side) and proved (C03_restricted_sound per side; C03_interface_sound for mixed expressions, in the "
+        "three-field setting of Proofs/LogicalIfP.v whose side condition 'a leaf is written with the atoms of its side' is evaluated "
+        "per case); cases that the checker does not prove equal to the model are decided by the independent two-point oracle only "
+        "(decisions.oracle_only_interface).  Functions WITHOUT a restriction on an interface, integrals / forms (C04, C11) and Trace "
+        "are not modelled.",
+        "Direct calls Jacobian / Covariant / Contravariant: model Model/LogicalIfM.v (*_call), theorems C03_covariant_call / "
+        "C03_contravariant_call; a vector of the wrong length is outside the model (Covariant reads the first d entries, "
+        "Contravariant raises ShapeError: recorded in direct_calls.histograms.dc_refusal, no alarm).",
         "Transpose(...) inputs (symmetric gradients) have no arm in the model: they are decided by the independent oracle "
         "only (decisions.oracle_only_transpose); the symbolic matrix constructors they go through "
         "(sympde/calculus/matrices.py) are modelled and proved in C02 (Props/C02m.v).",
